@@ -422,10 +422,12 @@ def dict_get(eng, d, key, default=KeyError):
                 return fresh("int", "absent")
             raise ProgExc(KeyError, "lookup in an empty dict")
         if not (d.items and _promote_scalar_dict(d, key, next(iter(d.items.values())))):  # {int: scalar} read with a symbolic key
-            raise Unsupported("symbolic key into a concrete dict")
+            if eng.spec_mode or getattr(eng, "pure_mode", 0) or kind_of(key) != "int":
+                raise Unsupported("symbolic key into a concrete dict")
     if d.items is not None:
-        if key in d.items:
-            return d.items[key]
+        hit = resolve_key(eng, d, key)
+        if hit is not None:
+            return d.items[hit[0]]
         if d.default_factory is not None and default is KeyError:
             v = eng.call(d.default_factory, [], {})
             d.items[key] = v
@@ -462,6 +464,25 @@ def by_value_entry(d, kz):
     p.items, p.cols, p.kinds, p.tup, p.n = None, [z3.Select(d.val, kz)], ["int"], False, z3.Select(d.lens, kz)
     p.name, p.frozen = d.name + "_entry", True
     return p
+
+
+def resolve_key(eng, d, key):
+    """which entry of a dict of CONCRETE structure does `key` name, when the key or some stored keys are symbolic ints?  Decided by a case
+    split on equality with every stored key that is not syntactically the same (the path forks where the path condition leaves it open).
+    A key is only ever ADDED after all these comparisons came out `different`, so the stored keys are pairwise different on every path
+    and the dict keeps the shape CPython's would have.  Returns (stored key,) or None."""
+    try:
+        if key in d.items:
+            return (key,)
+    except TypeError:
+        return None
+    if kind_of(key) != "int" or not (isinstance(key, Sym) or any(isinstance(k, Sym) for k in d.items)):
+        return None
+    for k in list(d.items):
+        if kind_of(k) == "int" and (isinstance(key, Sym) or isinstance(k, Sym)):
+            if eng.branch(eng.sbool(to_z3(key, "int") == to_z3(k, "int"))):
+                return (k,)
+    return None
 
 
 def dict_set_default(eng, d, key):
@@ -533,9 +554,14 @@ def setitem(eng, base, idx, val):
         if base.items is not None:
             if isinstance(idx, Sym):
                 if not _promote_scalar_dict(base, idx, val):
-                    raise Unsupported("symbolic key store into a concrete dict (add a `types` hint)")
+                    if eng.spec_mode or getattr(eng, "pure_mode", 0) or kind_of(idx) != "int":
+                        raise Unsupported("symbolic key store into a concrete dict (add a `types` hint)")
+                    hit = resolve_key(eng, base, idx)  # the dict keeps its concrete structure: case split on which entry the key names
+                    base.items[hit[0] if hit is not None else idx] = val
+                    return
             else:
-                base.items[idx] = val
+                hit = resolve_key(eng, base, idx) if any(isinstance(k_, Sym) for k_ in base.items) else None
+                base.items[hit[0] if hit is not None else idx] = val
                 return
         kz = to_z3(idx, "int")
         base.dom = z3.Store(base.dom, kz, z3.BoolVal(True))
@@ -586,8 +612,16 @@ def contains(eng, container, item):
         return container.__pyvc_contains__(eng, item)
     if isinstance(container, PDict):
         if container.items is not None:
-            if isinstance(item, Sym) or hasattr(item, "__pyvc_compare__"):
+            if hasattr(item, "__pyvc_compare__"):
                 raise Unsupported("symbolic `in` on a concrete dict")
+            if isinstance(item, Sym) or any(isinstance(k_, Sym) for k_ in container.items):
+                if kind_of(item) != "int":
+                    raise Unsupported("symbolic `in` on a concrete dict")
+                acc = False  # no fork needed: the answer is the disjunction of the comparisons with the stored keys
+                for k_ in container.items:
+                    if kind_of(k_) == "int":
+                        acc = eng.or_(acc, eng.compare(ast.Eq(), item, k_))
+                return acc
             return item in container.items
         return eng.sbool(z3.Select(container.dom, to_z3(item, "int")))
     if isinstance(container, PList):
